@@ -42,13 +42,12 @@ Definition comma : N := 44.  Definition dash : N := 45.  Definition colon : N :=
 
 (** b"%d" % n for n >= 0, and [int(bytes)] restricted to -?[0-9]+ (what the generator uses;
     Python also accepts surrounding whitespace, '+', and underscores) *)
-Fixpoint dec_digits (fuel : nat) (n : N) (acc : bytes) : bytes :=
+Fixpoint dec_digits (fuel : nat) (n : N) : bytes :=
   match fuel with
-  | O => acc
-  | S f => let acc' := (48 + N.modulo n 10)%N :: acc in
-           if N.ltb n 10 then acc' else dec_digits f (N.div n 10) acc'
+  | O => []
+  | S f => if N.ltb n 10 then [(48 + n)%N] else dec_digits f (N.div n 10) ++ [(48 + N.modulo n 10)%N]
   end.
-Definition show_dec (n : N) : bytes := dec_digits (S (N.to_nat (N.log2 n))) n [].
+Definition show_dec (n : N) : bytes := dec_digits (S (N.to_nat (N.log2 n))) n.
 
 Fixpoint parse_digits (s : bytes) (acc : N) : option N :=
   match s with
